@@ -104,7 +104,22 @@ def reload_scripts(rng, n):
         after = [svcs[1]]
         cfg = proto.Config(svcs, timeout=rng.choice([None, 3600]))
         kind = ["more-then-removed", "leaver-then-removed", "more-then-removed", "owed-answer", "two-waiters", "leaver-then-removed", "retry-then-removed",
-                "more-then-replaced", "removed-then-leave", "ok-then-slot-reused"][k_ % 10]
+                "more-then-replaced", "removed-then-leave", "ok-then-slot-reused", "first-service-added"][k_ % 11]
+        if kind == "first-service-added":
+            # the service table is empty when the client is announced; a reload adds the first service(s); the rest of the client's
+            # data arrives afterwards: the newcomers are asked as soon as what their protocols need is known
+            cfg = proto.Config([], timeout=rng.choice([None, 3600]))
+            cid = rng.choice([5, 0, 70000])
+            newp = rng.choice(["dronecheck", "combined", "login-ipr", "login"])
+            pre_ = [{"t": "host", "id": cid, "name": "h5.example"}, {"t": "ident", "id": cid, "name": "id5"}, {"t": "password", "id": cid, "text": "+x acct5 pw"}]
+            post_ = [{"t": "nick", "id": cid, "name": "n5"}, {"t": "userinfo", "id": cid, "user": "u5", "real": "R"}]
+            rng.shuffle(pre_)
+            cut_ = rng.randint(0, 2)
+            ev = [{"t": "announce", "id": cid, "ip": "192.0.2.5", "port": 1005}] + pre_[:cut_] + \
+                 [{"t": "reload", "services": [["first.svc", newp]] + ([["second.svc", "dronecheck"]] if rng.random() < 0.4 else [])}] + pre_[cut_:] + post_ + \
+                 [{"t": "hurry", "id": cid}, {"t": "stats"}]
+            out.append((cfg, ev))
+            continue
         if kind == "ok-then-slot-reused":
             # chal.svc says OK; one reload removes it, the next adds new.svc (which may take its place in the table); new.svc never
             # answers and the client is accepted by its timeout: a class rule asking for new.svc's OK must not match
